@@ -130,13 +130,18 @@ pub struct RunCfg {
     /// SER, targeted pause: only hits inside a region the thread itself marked (`set_mark(true)` .. `set_mark(false)`) are counted -- so that the pause can be
     /// aimed at one particular operation of a script ("the drop of this listener") rather than at the n-th hit of a site anywhere
     pub pause_marked_only: bool,
+    /// SER, 0 = off: when the step cap is reached and EVERY thread that can still run has taken at least this many steps of its own since it last completed an
+    /// operation of its script (`op_done`), the run is a stall -- operations that do not complete in a bounded number of their own steps while nobody who could
+    /// help is making progress either -- instead of an inconclusive run. (The streak rule cannot see a retry loop that passes through non-loop sites, e.g. one that
+    /// re-reserves and re-queries on every round.)
+    pub per_op_step_bound: u64,
 }
 impl RunCfg {
     pub fn ser(seed: u64, strategy: Strategy) -> Self {
-        Self { lane: Lane::Ser, seed, strategy, max_steps: 200_000, stall_k: 600, chaos: 0, watchdog: Duration::from_secs(30), trace: false, lone_thread_step_cap_is_stall: false, pause_marked_only: false }
+        Self { lane: Lane::Ser, seed, strategy, max_steps: 200_000, stall_k: 600, chaos: 0, watchdog: Duration::from_secs(30), trace: false, lone_thread_step_cap_is_stall: false, pause_marked_only: false, per_op_step_bound: 0 }
     }
     pub fn free(seed: u64, chaos: u8) -> Self {
-        Self { lane: Lane::Free, seed, strategy: Strategy::Random { p_pct: 0 }, max_steps: u64::MAX, stall_k: 0, chaos, watchdog: Duration::from_secs(30), trace: false, lone_thread_step_cap_is_stall: false, pause_marked_only: false }
+        Self { lane: Lane::Free, seed, strategy: Strategy::Random { p_pct: 0 }, max_steps: u64::MAX, stall_k: 0, chaos, watchdog: Duration::from_secs(30), trace: false, lone_thread_step_cap_is_stall: false, pause_marked_only: false, per_op_step_bound: 0 }
     }
 }
 
@@ -382,6 +387,8 @@ struct Th {
     pause_until: u64,
     prio:       i64,
     marked:     bool,
+    /// steps of this thread since it last completed an operation of its script
+    op_steps:   u64,
 }
 
 struct St {
@@ -558,13 +565,18 @@ impl Shared {
             let t = &mut st.th[tid];
             if kind == rv::KIND_SPIN { t.streak += 1 } else if !lp { t.streak = 0 }
             if site == H_SPIN { t.h_streak += 1 }
+            if site == H_OP { t.op_steps = 0 } else { t.op_steps += 1 }
             t.last_site = site;
         }
         // somebody completed an operation: whatever the others are waiting for at harness level may have become true
         if site == H_OP { for t in st.th.iter_mut() { t.h_streak = 0 } }
         if st.step > st.cfg.max_steps {
             let lone = st.cfg.lone_thread_step_cap_is_stall && st.th.iter().enumerate().all(|(i, t)| if i == tid { t.status == Status::Runnable } else { t.status == Status::Finished });
-            let outcome = if lone { Outcome::Stall { spinners: vec![(tid, site)], gated: Vec::new() } } else { Outcome::StepCap };
+            let b = st.cfg.per_op_step_bound;
+            let all_stuck = b > 0 && st.th.iter().all(|t| t.status != Status::Runnable || t.op_steps >= b) && st.th.iter().all(|t| !matches!(t.status, Status::Paused | Status::NotStarted));
+            let outcome = if lone { Outcome::Stall { spinners: vec![(tid, site)], gated: Vec::new() } }
+                else if all_stuck { Outcome::Stall { spinners: st.th.iter().enumerate().filter(|(_, t)| t.status == Status::Runnable).map(|(i, t)| (i, t.last_site)).collect(), gated: st.th.iter().enumerate().filter(|(_, t)| t.status == Status::Gated).map(|(i, _)| i).collect() } }
+                else { Outcome::StepCap };
             self.do_abort(&mut st, outcome);
             self.freeze(st, tid);
         }
@@ -675,7 +687,7 @@ fn panic_msg(e: Box<dyn std::any::Any + Send>) -> String {
 fn run_ser(cfg: &RunCfg, bodies: Vec<Body>) -> Report {
     let n = bodies.len();
     let mut rng = Rng::new(cfg.seed);
-    let mut th: Vec<Th> = (0..n).map(|_| Th { status: Status::NotStarted, streak: 0, h_streak: 0, last_site: u32::MAX, park_abort: false, pause_until: 0, prio: 0, marked: false }).collect();
+    let mut th: Vec<Th> = (0..n).map(|_| Th { status: Status::NotStarted, streak: 0, h_streak: 0, last_site: u32::MAX, park_abort: false, pause_until: 0, prio: 0, marked: false, op_steps: 0 }).collect();
     let mut pct_changes = Vec::new();
     if let Strategy::Pct { depth, est_steps } = cfg.strategy {
         let mut prios: Vec<i64> = (0..n as i64).map(|i| i + depth as i64).collect();
